@@ -325,6 +325,20 @@ pub fn analyse(rep: &RunReport) -> Verdict {
                             if r.starts != 0 {
                                 v(&mut out, "C09", "busy_but_ran", &[r.id], ret, format!("try_sync {} returned Busy but its closure ran", r.id));
                             }
+                            // Busy on an object that had nothing queued or in progress: its queue was idle and empty just before the call
+                            // and nothing else was scheduled on it, nor was it released, while the call lasted
+                            if let (Some(o), Some((0, 0))) = (r.obj, r.state_at_inv) {
+                                // (anything invoked before this call returned that had not run to its end, or whose call had not yet returned, when this call was made:
+                                // a sync caller on its way out may still claim and release the queue once more)
+                                let disturbed = ops.iter().any(|x| x.id != r.id && x.obj == Some(o) && x.inv.map_or(false, |i| i < ret) && (x.fin.map_or(true, |f| f > inv) || x.ret.map_or(true, |rr| rr > inv)) && x.outcome != CallOutcome::Skipped)
+                                    || world.hrec.iter().any(|h| h.op.map_or(false, |id| ops[id as usize].obj == Some(o)) && h.created_at.map_or(false, |c| c < ret) && h.dropped_at.map_or(true, |d| d > inv))
+                                    || world.streams.iter().any(|st| st.obj == Some(o))
+                                    || world.objs[o].drop_inv.map_or(false, |d| d < ret)
+                                    || world.objs[o].table_dropped_at.map_or(false, |d| d < ret);
+                                if !disturbed && !panicked_obj(r.obj) {
+                                    v(&mut out, "C09", "busy_on_idle_object", &[r.id], ret, format!("try_sync {} returned Busy although the queue of object {} was idle and empty when the call was made and nothing else was scheduled on it during the call", r.id, o));
+                                }
+                            }
                         }
                         CallOutcome::Panicked(m) => {
                             if !panicked_obj(r.obj) && !r.injects_panic {
@@ -359,6 +373,18 @@ pub fn analyse(rep: &RunReport) -> Verdict {
                 }
             }
             _ => {}
+        }
+        // what an operation captured (closure, future, anything that borrows the value) is destroyed before the next operation on the
+        // object starts: its slot is not released while any of it is alive
+        if r.kind.has_body() && r.fin_kind == FinKind::Normal && !panicked_obj(r.obj) {
+            if let (Some(f), Some(d), Some(o)) = (r.fin, r.closure_drop_at, r.obj) {
+                if let Some(y) = ops.iter().filter(|y| y.id != r.id && y.obj == Some(o) && y.kind.has_body() && y.start.map_or(false, |s| s > f && s < d)).min_by_key(|y| y.start) {
+                    v(&mut out, "C14", "operation_state_outlived_its_slot", &[r.id, y.id], y.start.unwrap_or(0), format!("{} {} on object {} had finished, but what it had captured was destroyed only after {} {} had started on the same object", r.tag, r.id, o, y.tag, y.id));
+                    if r.kind == Kind::FutureSync {
+                        v(&mut out, "C08", "future_outlived_its_slot", &[r.id, y.id], y.start.unwrap_or(0), format!("the future of future_sync {} was destroyed only after {} {} had started on object {}", r.id, y.tag, y.id, o));
+                    }
+                }
+            }
         }
         // accepted background work whose closure was thrown away without ever being invoked: the operation was lost
         if r.kind.background() && matches!(r.outcome, CallOutcome::Returned(_)) && r.starts == 0 && r.closure_drops > 0 && !panicked_obj(r.obj) && rep.result.outcome != Outcome::Aborted {
@@ -509,6 +535,20 @@ pub fn analyse(rep: &RunReport) -> Verdict {
             }
             if r.start.is_some() && !in_fs {
                 v(&mut out, "C15", "ran_on_panicked_object", &[r.id], r.start.unwrap(), format!("{} {} ran on panicked object {}", r.tag, r.id, o));
+            }
+        }
+        // the thread on which the panic surfaced knows that it is over as soon as it has caught it: whatever it schedules on the
+        // object from then on must be refused, in the same phase too
+        let observer: Option<(usize, u64)> = match src.kind {
+            Kind::Sync | Kind::TrySync if matches!(src.outcome, CallOutcome::Panicked(_)) => src.thread.zip(src.ret),
+            Kind::FutureSync => world.hrec.iter().find(|h| h.op == Some(src.id)).and_then(|h| h.panicked_at).map(|(sq, t)| (t, sq)),
+            _ => None,
+        };
+        if let Some((t, after)) = observer {
+            for r in ops.iter().filter(|r| r.obj == Some(o) && r.phase == pp && r.kind.has_body() && r.thread == Some(t) && r.nested_in.is_none() && r.inv.map_or(false, |i| i > after)) {
+                if matches!(r.outcome, CallOutcome::Returned(_) | CallOutcome::Busy) {
+                    v(&mut out, "C15", "call_on_panicked_object_returned", &[r.id], r.ret.unwrap_or(0), format!("{} {} on panicked object {} returned normally instead of panicking (made by the thread on which the panic of {} {} had just surfaced)", r.tag, r.id, o, src.tag, src.id));
+                }
             }
         }
         // ... and whatever was still queued when the object panicked stays where it is: nothing of the dead queue starts once the
